@@ -48,6 +48,18 @@ def cases(tier, seed):
         addp('%sa\\%sb%s' % (q, chr(cp), q), ('escape-sweep',))
         if cp % 97 == 0:
             add('"\\%s"' % chr(cp), ('escape-sweep',))
+    # \\uXXXX for boundary code units and a sweep (thorough: every non-surrogate BMP code unit), in both hex cases
+    units = [0x0, 0x1, 0x1f, 0x20, 0x22, 0x5c, 0x7f, 0x80, 0xff, 0x100, 0x7ff, 0x800, 0xfff, 0x1000, 0xd7ff, 0xe000, 0xfdd0, 0xfeff, 0xfffc, 0xfffd, 0xfffe, 0xffff]
+    units += list(range(0, 0x10000, 7 if tier != 'quick' else 97))
+    for u in units:
+        if 0xd800 <= u < 0xe000:
+            continue
+        h = '%04x' % u
+        add('"\\u%s"' % (h if u % 2 else h.upper()), ('unicode-escape',))
+        if u % 5 == 0:
+            addp("'x\\u%s'" % h, ('unicode-escape',))
+    for hi, lo in [(0xd800, 0xdc00), (0xdbff, 0xdfff), (0xd83d, 0xde00), (0xd800, 0xdfff), (0xdbff, 0xdc00), (0xd83d, 0xd83d), (0xdc00, 0xd800), (0xdc00, 0xdc00), (0xd800, 0x0041), (0xd800, 0xe000), (0xd7ff, 0xdc00), (0xd800, 0xdbff)]:
+        add('"\\u%04x\\u%04x"' % (hi, lo), ('unicode-escape', 'surrogates')); add('"a\\u%04X\\u%04Xb"' % (hi, lo), ('unicode-escape', 'surrogates'))
     for x in NUMS + BAD_NUMS:
         add(x, ('number',)); add('[%s]' % x, ('number',)); add('{"n": %s}' % x, ('number',)); add(' %s ' % x, ('number',))
     # random numbers from the grammar
